@@ -2,6 +2,7 @@ import CgtModel.Report
 import CgtModel.Lemmas.WellFormed
 import CgtModel.Lemmas.Covered
 import CgtModel.Props.C02
+import CgtModel.Props.Formulas
 /-! # C05 — a report is produced exactly when every sale is covered by shares held
 
 Statement: with no other obstacle (rates, exemptions, over-large capital return), a report is produced
